@@ -196,4 +196,9 @@ M = [('r3_revert_D3_eventmonitor_port',
   [('        unambiguous = len(set(reg_names + ["mux"])) == len(reg_names) + 1\n',
     '        unambiguous = len(set(reg_names)) == len(reg_names)\n')],
   None),
+ ('r11_D10_register_count_at_least_one',
+  'amaranth_soc/csr/reg.py',
+  [('            if field_path and field_names.count(field_name) == 1:\n',
+    '            if field_path and field_names.count(field_name) >= 1:\n')],
+  None),
 ]
